@@ -57,9 +57,9 @@ def run(mod, fname, args, summaries=None, cpu='initialised', trace=False, maxpat
     return res, ex
 
 
-def arg_hex(args, model):
+def arg_hex(args, model, ufs=None):
     """concrete replay arguments under a model (unassigned variables = 0)"""
-    ev = T.Evaluator(model or {})
+    ev = T.Evaluator(model or {}, ufs)
     out = []
     for a in args:
         if isinstance(a, Buf):
@@ -75,7 +75,7 @@ def arg_hex(args, model):
 _replay_bins = {}
 
 
-def replay_bin(profile='release', features=('std',), rustflags=''):
+def replay_bin(profile='release', features=('std', 'hashes', 'x86hashes'), rustflags=''):
     """build (incrementally) and return the native replay binary for /repo's current tree"""
     key = (profile, tuple(features), rustflags)
     if key in _replay_bins:
@@ -96,13 +96,14 @@ def replay_bin(profile='release', features=('std',), rustflags=''):
     return b
 
 
-def replay(fname, args, model, profile='release', features=('std',), backend=None, timeout=60):
+def replay(fname, args, model, profile='release', features=('std', 'hashes', 'x86hashes'), backend=None, timeout=60, ufs=None):
     """run the entry natively; returns dict(status='ok'|'panic'|'crash', outputs=[hex...], ret=str, stderr=str)"""
     b = replay_bin(profile, features)
     env = dict(os.environ)
-    if backend:
-        env['VERIF_BACKEND'] = backend
-    p = subprocess.run([b, fname] + arg_hex(args, model), stdout=subprocess.PIPE, stderr=subprocess.PIPE, text=True, env=env, timeout=timeout)
+    cpu = cpu_mask(model)
+    if cpu is not None:
+        env['VERIF_CPU'] = str(cpu)
+    p = subprocess.run([b, fname] + arg_hex(args, model, ufs), stdout=subprocess.PIPE, stderr=subprocess.PIPE, text=True, env=env, timeout=timeout)
     lines = [l for l in p.stdout.split('\n') if l]
     r = {'status': 'ok', 'outputs': [], 'ret': None, 'stderr': p.stderr[-600:], 'code': p.returncode}
     if p.returncode != 0:
@@ -114,6 +115,14 @@ def replay(fname, args, model, profile='release', features=('std',), backend=Non
         else:
             r['outputs'].append(l)
     return r
+
+
+def cpu_mask(model):
+    """hook H1 mask (bit0 sse2, 1 ssse3, 2 sse4.1, 3 avx, 4 avx2) for the CPU-feature word of a model"""
+    if not model or 'cpu' not in model:
+        return None
+    c = model['cpu']
+    return 1 | ((c >> 9) & 1) << 1 | ((c >> 10) & 1) << 2 | ((c >> 14) & 1) << 3 | ((c >> 15) & 1) << 4
 
 
 def mutable_bufs(args):
